@@ -17,7 +17,7 @@ import os
 from harness import runs, c20model
 
 ID = "C20"
-THEOREM_MODULES = ["JF.Props.C20", "JF.Props.C20Loop", "JF.Props.SystemInvMP"]
+THEOREM_MODULES = ["JF.Props.C20", "JF.Props.C20Loop", "JF.Props.SystemInvMP", "JF.Props.SystemInvMP2"]
 COMPONENTS = ["mp"]
 ASSUMPTIONS = ["quantifier of the property: configurations whose out-state computation draws no random numbers (a pre-computed and "
                "later discarded out-state would otherwise advance that handler's random stream)",
